@@ -169,6 +169,21 @@ def fam_c17(tier, seed):
             for pts in ([], [T * MS + 2_000_000]):
                 spur.append((combo, sp, pts))
     scs = []
+    # a timed receiver whose wait was restarted by a wake-up is woken by unblock() after its own time is
+    # up (it gives up and uses the unblock up); another receiver is parked; a later receive call must wait
+    for t1 in (T * MS // 2, T * MS // 4):
+        for tu in (T * MS + 2 * MS, t1 + T * MS - 500_000, t1 + T * MS - 3 * MS):
+            for parked in (0, 1, 2):
+                for probe in ("recv", "timeout", None):
+                    apps = [R_timed_once(T)]
+                    for _ in range(parked):
+                        apps.append({"prog": [{"op": "sleep", "ns": MS}, {"op": "serve", "kind": "recv", "mode": "inline", "max_empty": 1, "ms": 0}]})
+                    apps.append({"prog": [{"op": "sleep", "ns": t1}, {"op": "spurious"}, {"op": "sleep", "ns": tu - t1}, {"op": "unblock"}]})
+                    if probe:
+                        apps.append({"prog": [{"op": "sleep", "ns": tu + 7 * MS}, {"op": "recv", "kind": probe, "ms": T}, {"op": "handle", "sel": "all", "mode": "inline"}]})
+                    sc = scenario("C17-g%03d" % len(scs), "C17", [], apps, horizon_ms=6 * T + 20, single=False)
+                    sc["tags"] = ["queue", "giveup-window", "parked:%d" % parked, "probe:%s" % probe]
+                    scs.append(sc)
     for (combo, sp, pts) in spur:
         apps = [recvs[r]() for r in combo]
         prog = []
@@ -373,10 +388,19 @@ def _answer_plans(kind):
     }
     return plans
 
+def _failing_plans():
+    """respond() with a chunked response whose own body reader fails (error / panic) after k bytes: the message is
+    terminated where the reader failed, respond reports the failure, nothing else is sent for the request"""
+    return {
+        "rfe0": lambda: respond_failing(3000, 0), "rfe3": lambda: respond_failing(3000, 3), "rfe700": lambda: respond_failing(3000, 700),
+        "rfp0": lambda: respond_failing(3000, 0, "panic"), "rfp3": lambda: respond_failing(40, 3, "panic"), "rfp700": lambda: respond_failing(3000, 700, "panic"),
+    }
+
 def fam_c01(tier, seed, prop="C01"):
     rng = _rng(prop, seed)
     plans = _answer_plans(prop)
     names = sorted(plans)
+    plans.update(_failing_plans())
     scs = []
     k = 0
     prods = []
@@ -388,6 +412,9 @@ def fam_c01(tier, seed, prop="C01"):
         prods += [("r5", "w0", "r5"), ("r1025", "w0", "w2n"), ("w0", "r5"), ("r5", "w0"), ("r5", "wf1"), ("r1025", "wf1", "r5"), ("w2f", "wf1")]
     # longer pipelines: several writers in a row that never write before they are dropped
     prods += [("r5", "w0", "w0", "r5"), ("r1025", "w0", "w0", "w2f"), ("w1f", "w0", "w0", "w0", "r5"), ("r5", "w0", "drop", "w0", "r5"), ("rbig", "w0", "w0", "rundecl")]
+    # a response whose body reader fails part-way, at every position
+    prods += [("rfe3",), ("rfp0",), ("rfe700", "r5"), ("rfp3", "r5"), ("r5", "rfe0", "r5"), ("r5", "rfp700", "w1f"), ("w2f", "rfe700", "drop"),
+              ("r1025", "rfp3"), ("rfe0", "rfp0", "r5"), ("drop", "rfe3", "panic")]
     for combo in prods:
         for mode in ("spawn", "inline"):
             delays = [0] * len(combo)
